@@ -423,10 +423,13 @@ func Serve(opts Options) error {
 		if ln != nil {
 			ln.Close()
 		}
+		// replication streams add and remove themselves under the server lock
+		s.mu.Lock()
 		for conn, f := range s.aofconnM {
 			conn.Close()
 			f.Close()
 		}
+		s.mu.Unlock()
 	}()
 
 	// Load the queue before the aof
